@@ -528,13 +528,26 @@ fn the_book(gen_seed: u64, fmt: Fmt) -> wb::LBook {
         9 => {
             let mut b = wb::LBook::default();
             let mut big = wb::LSheet { name: "Big".into(), ..Default::default() };
-            for r in 3..1031u32 {
+            // 4112, 10 400 or 20 800 cells (a cache that only serves sheets above some size must be exercised too)
+            let last = 3 + [1028u32, 2600, 5200][(gen_seed / 40 % 3) as usize];
+            for r in 3..last {
                 for c in 0..4u32 {
                     big.cells.insert((r, c), if (r + c) % 3 == 0 { wb::V::Str(format!("s{}", r % 7)) } else { wb::V::Num(r as f64 + 0.25) });
                 }
             }
             b.sheets.push(big);
             b.sheets.push(wb::gen_sheet_at(&mut rng, "Small", 10, (3, 0, 6, 3)));
+            b
+        }
+        11 | 13 => {
+            // a macro part that cannot be parsed (random bytes / empty / a compound file without a `dir` stream):
+            // `vba_project()` must say so on every call (seeded C07-m18: a result cache filled before the attempt)
+            let mut b = wb::gen_book_rich(&mut rng, fmt, 3, 25);
+            b.vba = Some(match gen_seed / 40 % 3 {
+                0 => (0..rng.range(1, 600)).map(|_| rng.below(256) as u8).collect(),
+                1 => vec![],
+                _ => verif_harness::cfbw::write_cfb(&[("PROJECT".to_string(), b"ID=\"{0}\"\r\n".to_vec())], &verif_harness::cfbw::CfbOpts::default(), &mut rng),
+            });
             b
         }
         _ => wb::gen_book_rich(&mut rng, fmt, 3, 25),
@@ -576,11 +589,15 @@ fn gen_case(rng: &mut Rng, fmt: Fmt) -> Case {
         }
         9 => {
             // the big sheet through worksheets() and by name under the default option and under Row(0) / Row(3)
-            for h in [None, Some(0u32), Some(3), None, Some(0)] {
+            for h in [None, Some(0u32), Some(3), Some(500), Some(3), None, Some(0)] {
                 ops.push(Op::H(h));
                 ops.push(if rng.chance(1, 2) { Op::W } else { Op::R("Big".into()) });
                 ops.push(if rng.chance(1, 2) { Op::R("Big".into()) } else { Op::RR("Big".into()) });
             }
+        }
+        11 | 13 => {
+            let first = names[0].clone();
+            ops.extend([Op::V, Op::V, Op::R(first), Op::V]);
         }
         _ => {}
     }
